@@ -5,6 +5,11 @@ Model of contentstream/parser.go (tabula, after the C06 fixes):
 `parseString`, `parseHexString`, `parseName`, `parseArray`, `parseDict`,
 `skipWhitespace`, `skipSpace`, `regularToken`.  Core Lean only.
 
+Nesting limit (fix a3fd154): `p.depth`, `enter()` and `maxNestingDepth = 500`
+are the same as in core/parser.go; the count of open arrays and dictionaries is
+the argument `d` of `parseOperand` / `parseArray` / `parseDict`, and every
+top-level operand starts at 0 (the deferred `p.depth--`).
+
 The Go parser indexes `p.data[p.pos]`; here the state is the suffix of the
 data from `p.pos` on.  The operand stack is a field of the parser (fix B2), so
 one `Parse` call is a function of its input alone.
@@ -183,10 +188,13 @@ termination_by s => s.length
 decreasing_by all_goals (simp only [List.length_cons]; omega)
 
 mutual
-/-- `parseOperand` -/
-def parseOperand : Nat → Str → Option (Obj × Str)
-  | 0, _ => none
-  | f + 1, inp =>
+/-- `parseOperand`.  First argument: fuel; second: `p.depth`, the number of
+arrays and dictionaries open around the operand.  The `enter()` check of
+`parseArray` / `parseDict` (after the test for the opening delimiter, before it
+is skipped) is the inner `if` of the two container arms. -/
+def parseOperand : Nat → Nat → Str → Option (Obj × Str)
+  | 0, _, _ => none
+  | f + 1, d, inp =>
     match skipSpace inp with
     | [] => none
     | c :: r =>
@@ -200,8 +208,10 @@ def parseOperand : Nat → Str → Option (Obj × Str)
         | none => none
         | some (v, r') => some (.str v, r')
       else if c = 47 then some (.name (nameLoop r).1, (nameLoop r).2)
-      else if c = 91 then parseArray f r []
-      else if c = 60 ∧ r.head? = some 60 then parseDict f (r.drop 1) []
+      else if c = 91 then
+        if maxNestingDepth ≤ d then none else parseArray f (d + 1) r []
+      else if c = 60 ∧ r.head? = some 60 then
+        if maxNestingDepth ≤ d then none else parseDict f (d + 1) (r.drop 1) []
       else if c = 116 ∨ c = 102 ∨ c = 110 then
         let t := regularToken (c :: r)
         if t = kwTrue then some (.bool true, (c :: r).drop t.length)
@@ -210,23 +220,24 @@ def parseOperand : Nat → Str → Option (Obj × Str)
         else none
       else none
 /-- the loop of `parseArray` (after `[`): data that ends at the top of the loop
-closes the array silently, data that ends after white space is an error -/
-def parseArray : Nat → Str → List Obj → Option (Obj × Str)
-  | 0, _, _ => none
-  | f + 1, inp, acc =>
+closes the array silently, data that ends after white space is an error; `d`
+counts this array too -/
+def parseArray : Nat → Nat → Str → List Obj → Option (Obj × Str)
+  | 0, _, _, _ => none
+  | f + 1, d, inp, acc =>
     if inp = [] then some (.arr acc, []) else
     match skipSpace inp with
     | [] => none
     | c :: r =>
       if c = 93 then some (.arr acc, r)
       else
-        match parseOperand f (c :: r) with
+        match parseOperand f d (c :: r) with
         | none => none
-        | some (o, r') => parseArray f r' (acc ++ [o])
-/-- the loop of `parseDict` (after `<<`) -/
-def parseDict : Nat → Str → List (Str × Obj) → Option (Obj × Str)
-  | 0, _, _ => none
-  | f + 1, inp, acc =>
+        | some (o, r') => parseArray f d r' (acc ++ [o])
+/-- the loop of `parseDict` (after `<<`); `d` counts this dictionary too -/
+def parseDict : Nat → Nat → Str → List (Str × Obj) → Option (Obj × Str)
+  | 0, _, _, _ => none
+  | f + 1, d, inp, acc =>
     if inp = [] then some (.dict acc, []) else
     match skipSpace inp with
     | [] => none
@@ -235,9 +246,9 @@ def parseDict : Nat → Str → List (Str × Obj) → Option (Obj × Str)
       else if c ≠ 47 then none
       else
         let k := nameLoop r
-        match parseOperand f k.2 with
+        match parseOperand f d k.2 with
         | none => none
-        | some (o, r') => parseDict f r' (dictSet acc k.1 o)
+        | some (o, r') => parseDict f d r' (dictSet acc k.1 o)
 end
 
 structure Operation where
@@ -269,7 +280,7 @@ theorem opName_le (b : Bool) (s : Str) : (opName b s).2.length ≤ s.length := b
 def fuelFor (inp : Str) : Nat := 4 * inp.length + 8
 
 /-- `Parse` with `parseNext` and `parseOperator` inlined: `stack` is
-`p.operandStack`, `ops` is `p.ops` -/
+`p.operandStack`, `ops` is `p.ops`; every operand is read with `p.depth = 0` -/
 def parseLoop : Nat → Nat → Str → List Obj → List Operation → Option (List Operation)
   | 0, _, _, _, _ => none
   | n + 1, fuel, inp, stack, ops =>
@@ -281,7 +292,7 @@ def parseLoop : Nat → Nat → Str → List Obj → List Operation → Option (
         if p.1 = [] then none
         else parseLoop n fuel p.2 [] (ops ++ [{ op := p.1, operands := stack }])
       else
-        match parseOperand fuel (c :: r) with
+        match parseOperand fuel 0 (c :: r) with
         | none => none
         | some (o, r') => parseLoop n fuel r' (stack ++ [o]) ops
 
